@@ -172,9 +172,9 @@ Proofs/Cost.vos Proofs/Cost.vok Proofs/Cost.required_vos: Proofs/Cost.v Model/Ti
 Props/C13.vo Props/C13.glob Props/C13.v.beautified Props/C13.required_vo: Props/C13.v Props/Shipped.vo Model/ApiHist.vo Proofs/Purity.vo
 Props/C13.vio: Props/C13.v Props/Shipped.vio Model/ApiHist.vio Proofs/Purity.vio
 Props/C13.vos Props/C13.vok Props/C13.required_vos: Props/C13.v Props/Shipped.vos Model/ApiHist.vos Proofs/Purity.vos
-Props/C14.vo Props/C14.glob Props/C14.v.beautified Props/C14.required_vo: Props/C14.v Props/Shipped.vo Model/Ticks.vo Spec/Lex.vo Proofs/ScanRef.vo Proofs/Cost.vo Proofs/ParseGrammar.vo Proofs/ParseCost.vo Model/ParseStack.vo Model/ParseStackTicks.vo Proofs/ParseStackCost.vo
-Props/C14.vio: Props/C14.v Props/Shipped.vio Model/Ticks.vio Spec/Lex.vio Proofs/ScanRef.vio Proofs/Cost.vio Proofs/ParseGrammar.vio Proofs/ParseCost.vio Model/ParseStack.vio Model/ParseStackTicks.vio Proofs/ParseStackCost.vio
-Props/C14.vos Props/C14.vok Props/C14.required_vos: Props/C14.v Props/Shipped.vos Model/Ticks.vos Spec/Lex.vos Proofs/ScanRef.vos Proofs/Cost.vos Proofs/ParseGrammar.vos Proofs/ParseCost.vos Model/ParseStack.vos Model/ParseStackTicks.vos Proofs/ParseStackCost.vos
+Props/C14.vo Props/C14.glob Props/C14.v.beautified Props/C14.required_vo: Props/C14.v Props/Shipped.vo Model/Ticks.vo Spec/Lex.vo Proofs/ScanRef.vo Proofs/Cost.vo Proofs/ParseGrammar.vo Proofs/ParseCost.vo Model/ParseStack.vo Model/ParseStackTicks.vo Proofs/ParseStackCost.vo Model/ScanTicks.vo Proofs/ScanCost.vo
+Props/C14.vio: Props/C14.v Props/Shipped.vio Model/Ticks.vio Spec/Lex.vio Proofs/ScanRef.vio Proofs/Cost.vio Proofs/ParseGrammar.vio Proofs/ParseCost.vio Model/ParseStack.vio Model/ParseStackTicks.vio Proofs/ParseStackCost.vio Model/ScanTicks.vio Proofs/ScanCost.vio
+Props/C14.vos Props/C14.vok Props/C14.required_vos: Props/C14.v Props/Shipped.vos Model/Ticks.vos Spec/Lex.vos Proofs/ScanRef.vos Proofs/Cost.vos Proofs/ParseGrammar.vos Proofs/ParseCost.vos Model/ParseStack.vos Model/ParseStackTicks.vos Proofs/ParseStackCost.vos Model/ScanTicks.vos Proofs/ScanCost.vos
 Spec/Spellings.vo Spec/Spellings.glob Spec/Spellings.v.beautified Spec/Spellings.required_vo: Spec/Spellings.v Model/Api.vo Spec/WF.vo
 Spec/Spellings.vio: Spec/Spellings.v Model/Api.vio Spec/WF.vio
 Spec/Spellings.vos Spec/Spellings.vok Spec/Spellings.required_vos: Spec/Spellings.v Model/Api.vos Spec/WF.vos
@@ -253,6 +253,12 @@ Model/ParseStackTicks.vos Model/ParseStackTicks.vok Model/ParseStackTicks.requir
 Proofs/ParseStackCost.vo Proofs/ParseStackCost.glob Proofs/ParseStackCost.v.beautified Proofs/ParseStackCost.required_vo: Proofs/ParseStackCost.v Model/Parse.vo Model/ParseStack.vo Model/ParseStackTicks.vo Proofs/ParseGrammar.vo Proofs/ParseStack.vo
 Proofs/ParseStackCost.vio: Proofs/ParseStackCost.v Model/Parse.vio Model/ParseStack.vio Model/ParseStackTicks.vio Proofs/ParseGrammar.vio Proofs/ParseStack.vio
 Proofs/ParseStackCost.vos Proofs/ParseStackCost.vok Proofs/ParseStackCost.required_vos: Proofs/ParseStackCost.v Model/Parse.vos Model/ParseStack.vos Model/ParseStackTicks.vos Proofs/ParseGrammar.vos Proofs/ParseStack.vos
+Model/ScanTicks.vo Model/ScanTicks.glob Model/ScanTicks.v.beautified Model/ScanTicks.required_vo: Model/ScanTicks.v Model/Scan.vo
+Model/ScanTicks.vio: Model/ScanTicks.v Model/Scan.vio
+Model/ScanTicks.vos Model/ScanTicks.vok Model/ScanTicks.required_vos: Model/ScanTicks.v Model/Scan.vos
+Proofs/ScanCost.vo Proofs/ScanCost.glob Proofs/ScanCost.v.beautified Proofs/ScanCost.required_vo: Proofs/ScanCost.v Model/Scan.vo Model/ScanTicks.vo Proofs/BytesFacts.vo
+Proofs/ScanCost.vio: Proofs/ScanCost.v Model/Scan.vio Model/ScanTicks.vio Proofs/BytesFacts.vio
+Proofs/ScanCost.vos Proofs/ScanCost.vok Proofs/ScanCost.required_vos: Proofs/ScanCost.v Model/Scan.vos Model/ScanTicks.vos Proofs/BytesFacts.vos
 Proofs/Subst.vo Proofs/Subst.glob Proofs/Subst.v.beautified Proofs/Subst.required_vo: Proofs/Subst.v Model/Parse.vo Spec/Grammar.vo Spec/Eval.vo Proofs/BytesFacts.vo Proofs/ParseGrammar.vo
 Proofs/Subst.vio: Proofs/Subst.v Model/Parse.vio Spec/Grammar.vio Spec/Eval.vio Proofs/BytesFacts.vio Proofs/ParseGrammar.vio
 Proofs/Subst.vos Proofs/Subst.vok Proofs/Subst.required_vos: Proofs/Subst.v Model/Parse.vos Spec/Grammar.vos Spec/Eval.vos Proofs/BytesFacts.vos Proofs/ParseGrammar.vos
